@@ -87,6 +87,7 @@ struct C03 : Driver {
       if (k == 0) { r.sched = sim::Sched(); r.sched.policy = sim::P_DEFAULT; r.in_kind = sim::K_FILE; }
       else if (rng.below(3) == 0) { r.argv.push_back("f"); }     // FILE operand: f -> f.bz2
       if (k != 0 && rng.below(10) == 0) use_default_workers(r);
+      if (k != 0 && rng.below(12) == 0) { sim::Fault ft; ft.call = sim::C_MALLOC; ft.role = sim::R_ANY; ft.k = (int)rng.below(8); ft.err = ENOMEM; r.faults.push_back(ft); }   // one large allocation fails: the run may give up (status 1), it must not succeed with other bytes (seeded change C03-5)
       if (k != 0 && r.argv.back() != "f" && rng.below(6) == 0) as_second_operand(rng, r, c.data.size(), true);     // as the second FILE operand (possibly still growing while read): still the same bytes
       c.runs.push_back(r);
     }
@@ -102,6 +103,9 @@ struct C03 : Driver {
       if (operand) { FileSpec f; f.name = "f"; f.data = c.data; files.push_back(f); }
       sim::Result a = exec(r, operand ? Bytes() : c.data, files, ctx);
       if (Verdict v = global_monitors(a, "compression"); !v.ok()) return v;
+      bool alloc_failed = false;
+      for (auto &ft : a.faults) if (ft.fired && ft.call == sim::C_MALLOC) alloc_failed = true;
+      if (alloc_failed && a.exited(1) && !a.err.empty()) { if (ctx.st) ctx.st->inc("oracle.gave_up_after_allocation_failure"); continue; }      // allowed: a loud failure; what it wrote before is not compared
       if (!a.exited(0) || !a.err.empty()) return Verdict::fail("compress-status", "configuration " + std::to_string(k) + " (" + r.brief() + ") ended with " + a.describe());
       Bytes out;
       if (operand) { const sim::Inode *o = a.world.lookup("f.bz2"); if (!o) return Verdict::fail("no-output-file", "f.bz2 missing after compressing operand f"); out = o->data; }
